@@ -451,6 +451,8 @@ func C15(c *hx.Ctx) {
 	})
 	// process-level behaviour (GxzMain): personalities, information options, standard input, special operands
 	c15Main(c, bin)
+	// the header predicates gxz detects formats with (Sniff.tla)
+	sniffTable(c)
 	// preset round trips and xz-utils interoperability
 	plain := MakeData("alternating", 60000, c.Seed)
 	for _, format := range []string{"xz", "lzma"} {
